@@ -123,11 +123,14 @@ CHECKS = {
   "technique": "property-based testing: Hypothesis-generated models against a reference implementation of the GN/LM linear system",
  },
  "C06": {
-  "text": "Exhaustive enumeration of broadcastable lshape pairs (extents {0,1,2,3}; rank<=2 quick, rank<=3 thorough) x group types x 9 binary "
-          "ops and of all lshapes x 8 ltypes x 12 unary ops against item-by-item application; generated programs over a call template for "
-          "every name in HANDLED_FUNCTIONS compared with the same program on the plain tensor; a table of ~230 public calls with bitwise "
-          "argument snapshots; fault injection (exception after k ops) inside retain_ltype / func.jacrev with identity checks on the three "
-          "patched torch attributes. The broadcasting part is complete for the stated extents; the rest is exploration.",
+  "text": "Enumeration of broadcastable lshape pairs (extents {0,1,2,3}) x group types x binary ops (incl. algebra-left + / add(alpha)) and of "
+          "all lshapes x 8 ltypes x unary ops, every documented spelling (method, pp.<Fn>, operator), against item-by-item application, with "
+          "the trailing shape of empty batches taken from an unbatched reference item: the thorough tier enumerates the full rank<=3 box "
+          "(exhaustive), the quick tier the full rank<=2 box plus a seed-dependent sample of rank-3 pairs; generated programs over a call "
+          "template for every name in HANDLED_FUNCTIONS (also on empty batches) compared with the same program on the plain tensor; a table "
+          "of ~260 public calls with bitwise argument snapshots, none of which may raise; fault injection (user exception after k ops, "
+          "assert / shape / type error inside a pypose op, exception in a backward pass) inside retain_ltype / func.jacrev with identity "
+          "checks on the three patched torch attributes.",
   "design_ref": "DESIGN.md section 3, C06",
   "note": "Item-wise oracle uses the same pypose op on unbatched items (the statement is about batching transparency, not op values, which C01-C05 cover). cpu only.",
   "technique": "property-based testing: exhaustive shape enumeration, Hypothesis call programs (differential vs plain tensors), fault injection",
